@@ -6,19 +6,45 @@
 From Coq Require Export String.
 From V Require Export Base.Bytes Tail.LineReader Tail.Conn Corr.Hex.
 
-Inductive c17case :=
-| CST (id : N) (kind : N) (cs : list (bool * conn)) (out : list tagged) (ended : bool).
+(* ---- volume cases: several hundred KiB through ONE datagram stream ----
+   The datagrams are generated, not shipped: datagram j of a case holds the
+   lines lpd*j .. lpd*j+lpd-1, line k being 'A', k in six decimal digits, ':'
+   and [fill] times 'x'.  What was received is shipped as runs of consecutive
+   canonical lines and raw lines for everything else. *)
+Definition digit (n : N) : byte := (48 + n mod 10)%N.
+Definition d6 (k0 : nat) : bytes :=
+  let k := N.of_nat k0 in
+  [digit (k / 100000); digit (k / 10000); digit (k / 1000); digit (k / 100); digit (k / 10); digit k]%N.
+Definition canon (fill k : nat) : bytes := 65%N :: d6 k ++ 58%N :: repeat 120%N fill.
+Definition datagram (lpd fill j : nat) : bytes :=
+  concat (map (fun k => canon fill k ++ [NL]) (seq (lpd * j) lpd)).
 
-Definition c17case_id (c : c17case) : N := match c with CST i _ _ _ _ => i end.
+Inductive vitem := VRun (start count : nat) | VRaw (l : bytes).
+Definition expand (fill : nat) (items : list vitem) : list bytes :=
+  flat_map (fun it => match it with
+                      | VRun s c => map (canon fill) (seq s c)
+                      | VRaw l => [l]
+                      end) items.
+
+Inductive c17case :=
+| CST (id : N) (kind : N) (cs : list (bool * conn)) (out : list tagged) (ended : bool)
+| CVOL (id : N) (kind : N) (nd lpd fill : nat) (got : list vitem) (ended : bool).
+
+Definition c17case_id (c : c17case) : N := match c with CST i _ _ _ _ | CVOL i _ _ _ _ _ _ => i end.
 
 (* the model's reader size is irrelevant (C15); 64 keeps evaluation cheap while
    still forcing buffer growth on long lines *)
 Definition c17case_ok (c : c17case) : bool :=
   match c with
   | CST _ _ cs out ended => stream_ok 64 cs out && ended
+  | CVOL _ _ nd lpd fill got ended =>
+      list_eqb bytes_eqb
+        (dgram_lines 4096 (map (fun j => (0%nat, datagram lpd fill j)) (seq 0 nd)))
+        (expand fill got) && ended
   end.
 
 Definition mismatches (l : list c17case) : list N := failing c17case_ok c17case_id l.
 
 Definition T (i : nat) (l : bytes) : tagged := (i, l).
 Definition W (closed : bool) (c : conn) : bool * conn := (closed, c).
+
